@@ -3,7 +3,7 @@
    proofs Core/MachineCorrect*.v, Core/ExecCorrect.v. *)
 From RS Require Import Lib.Tac Lib.Outcome Lib.Bits Ty.Ty Core.Prog Core.Term Core.Typing Core.Sem
   Core.Bounds Core.Limits Core.Machine Core.MachineLemmas Core.MachineCorrect Core.MachineCorrect2
-  Core.ExecCorrect Core.Examples Core.BoundsTab.
+  Core.ExecCorrect Core.Examples Core.BoundsTab Core.LimitsExtra.
 Import ListNotations.
 Local Open Scope N_scope.
 
@@ -109,3 +109,18 @@ Theorem C07_example_comp :
              hwc st = 4 /\ hwf st = 3 /\ bounds no_jet_cost ex_comp = mkNB 2 1 605.
 Proof. exact (conj ex_comp_typed (conj ex_comp_accepted (proj2 ex_comp_run))). Qed.
 Print Assumptions C07_example_comp.
+
+(* 8. the hard limits, pinned to the documented values (the constants are regenerated from
+   bit_machine/limits.rs on every run): a total of exactly 2^31 - 1 cells is accepted, 2^31 is
+   refused with the error the code reports, for any bounds within the frame limit *)
+Theorem C07_hard_limits : MAX_CELLS = 2 ^ 31 - 1 /\ MAX_FRAMES = 2 ^ 20.
+Proof. exact hard_limits. Qed.
+Print Assumptions C07_hard_limits.
+
+Theorem C07_limits_boundary : forall p b, extra_cells b = 0 -> extra_frames b <= 2 ^ 20 - 2 ->
+  check_program p 0 (2 ^ 31 - 1) b = Ok tt /\
+  check_program p (2 ^ 30) (2 ^ 30 - 1) b = Ok tt /\
+  check_program p 0 (2 ^ 31) b = Err (MaxCellsExceeded (2 ^ 31) (2 ^ 31 - 1) 1) /\
+  check_program p (2 ^ 30) (2 ^ 30) b = Err (MaxCellsExceeded (2 ^ 31) (2 ^ 31 - 1) 3).
+Proof. exact limits_boundary. Qed.
+Print Assumptions C07_limits_boundary.
